@@ -26,6 +26,8 @@ CXX_SRCS = ["src/cpp/ports.cpp", "src/cpp/ports-runtime.cpp", "src/cpp/default-v
 VARIANTS = {
     # like the shipped RelWithDebInfo build: asserts off, so checks judge behaviour
     "plain": dict(cc="gcc", cxx="g++", flags=["-O2", "-g", "-DNDEBUG"]),
+    # C03: no sanitizer (the driver brings its own malloc/free/pthread_mutex_lock); clang because the harness fills a va_list by hand
+    "count": dict(cc="clang", cxx="clang++", flags=["-O2", "-g", "-DNDEBUG"]),
     "hooks": dict(cc="gcc", cxx="g++", flags=["-O2", "-g", "-DNDEBUG", "-D" + GUARD]),
     "asan": dict(cc="clang", cxx="clang++",
                  flags=["-O1", "-g", "-DNDEBUG", "-fno-omit-frame-pointer",
@@ -147,7 +149,7 @@ def driver(name, variant="asan", extra_flags=(), libs=()):
     inc = ["-I" + os.path.join(root, "include"), "-I" + os.path.join(root, "src/cpp"),
            "-I" + os.path.join(root, "src"), "-I" + os.path.join(VERIF, "harness", "common")]
     _run([v["cxx"], "-std=c++17"] + v["flags"] + list(extra_flags) + inc + ["-w", src, ar, "-o",
-         os.path.join(tmp, name), "-lm", "-lpthread"] + list(libs), "driver " + name)
+         os.path.join(tmp, name), "-lm", "-lpthread", "-ldl"] + list(libs), "driver " + name)
     try:
         os.rename(tmp, d)
     except OSError:
